@@ -517,7 +517,7 @@ def job_plan(pid, modules, theorems, rule_extra, partial=""):
         # an oracle failure is reported under the property it belongs to; others are left to that property's own check
         s.oracle_failures = [f for f in s.oracle_failures if f[3].startswith(f"[{pid}]")]
         return [s]
-    return dict(translate=True, modules=modules + ["Wx.Job.Api", "Wx.Job.ApiThm"], theorems=theorems + ["Jm.api_generated", "Jm.jobApi_documented"], bins=[("lib", ["wxjob"])], streams=streams,
+    return dict(translate=True, modules=modules + ["Wx.Job.Api", "Wx.Job.ApiThm", "Wx.Job.ShapesThm"], theorems=theorems + ["Jm.api_generated", "Jm.jobApi_documented", "Jm.every_control_is_modelled", "Jm.every_model_control_exists", "Jm.priorities_are_the_models", "Jm.command_states_are_the_models"], bins=[("lib", ["wxjob"])], streams=streams,
                 sources=["crates/supervisor/src/job/task.rs", "crates/supervisor/src/job/priority.rs", "crates/supervisor/src/job/state.rs", "crates/supervisor/src/job/job.rs",
                          "crates/supervisor/src/job/messages.rs", "crates/supervisor/src/flag.rs"],
                 rule="a case is one script (behaviour list + operation list); non-trivial = at least one child is spawned; distinct by (script body, implementation trace). " + rule_extra,
@@ -1137,7 +1137,7 @@ def c05_cases(seed, n):
         out.append(f"z{j} --on-busy-update={mode},--delay-run={dl}ms E{dl + 70},{r.choice(['I', 'E300'])} init;a:{dl + 90};chg;a:1200")
     for i in range(n):
         mode = r.choice(["do-nothing", "queue", "restart", "signal"])
-        flags = ["--on-busy-update=" + mode] if r.random() < 0.8 else ({"restart": ["-r"], "signal": ["--signal=" + r.choice(["SIGUSR1", "SIGHUP"])]}.get(mode, ["--on-busy-update=" + mode]))
+        flags = ["--on-busy-update=" + mode] if r.random() < 0.8 else ({"restart": ["-r"], "signal": ["--signal=" + r.choice(["SIGUSR1", "SIGHUP"])], "do-nothing": [""]}.get(mode, ["--on-busy-update=" + mode]))   # "" = no mode flag at all: the default (do-nothing)
         if r.random() < 0.3: flags.append("--stop-signal=" + r.choice(["SIGINT", "SIGUSR2", "SIGTERM", "SIGQUIT"]))
         if r.random() < 0.5: flags.append("--stop-timeout=" + r.choice(["0ms", "20ms", "50ms", "120ms"]))
         if r.random() < 0.2: flags.append("--delay-run=" + r.choice(["20ms", "50ms", "100ms"]))
@@ -1154,6 +1154,7 @@ def c05_cases(seed, n):
             # gaps: back-to-back, inside a run, at the moment of exit (multiples of the exit delays), during the grace period
             ops.append(r.choice(["y", "a:0", "a:5", "a:10", "a:20", "a:30", "a:50", "a:50", "a:100", "a:100", "a:150", "a:400"]))
         ops.append("a:" + r.choice(["300", "600", "1500"]))
+        flags = [f for f in flags if f] or ["--stop-timeout=10s"]     # (the default stop timeout, spelled out, when no other flag is given)
         out.append(f"k{seed}_{i} {','.join(flags)} {','.join(behs)} {';'.join(ops)}")
     return out
 
@@ -1465,8 +1466,9 @@ def cli_e2e(ctx, pid):
     return s
 
 PLANS["C05"] = dict(
-    modules=["Wx.Cli.Action", "Wx.Queue.Props", "Wx.Job.C04Sim", "Wx.Job.C06", "Wx.Cli.Compose", "Wx.Cli.ComposeThm", "Wx.Job.Reach"],
-    theorems=["Ca.cli_runs_never_overlap", "Ca.cli_never_kills_early", "Ca.cli_other_modes_never_kill", "Ca.runEvs_good", "Ca.maySend_gentle", "Jm.SimInv2.reach", "Ca.react_idle", "Ca.react_doNothing", "Ca.react_signal", "Ca.react_restart", "Ca.react_queue_first", "Ca.react_queue_again", "Ca.react_no_forceful",
+    translate=True,
+    modules=["Wx.Cli.Action", "Wx.Queue.Props", "Wx.Job.C04Sim", "Wx.Job.C06", "Wx.Cli.Compose", "Wx.Cli.ComposeThm", "Wx.Job.Reach", "Wx.Job.ShapesThm"],
+    theorems=["Jm.on_busy_modes_are_the_models", "Jm.cli_defaults_are_the_models", "Ca.cli_runs_never_overlap", "Ca.cli_never_kills_early", "Ca.cli_other_modes_never_kill", "Ca.runEvs_good", "Ca.maySend_gentle", "Jm.SimInv2.reach", "Ca.react_idle", "Ca.react_doNothing", "Ca.react_signal", "Ca.react_restart", "Ca.react_queue_first", "Ca.react_queue_again", "Ca.react_no_forceful",
               "Qm.perRun_fresh", "Qm.f10_today", "Qm.reorder_insufficient", "Jm.c04", "Jm.graceful_restart_step", "Jm.graceful_stop_step"],
     bins=[("cli", ["wxcliaction", "wxcli-main"])],
     streams=lambda ctx: c05_streams(ctx) + [c05_e2e(ctx), cli_e2e(ctx, "C05")],
